@@ -90,6 +90,14 @@ def make_case(rng, fmt):
         add(unb_lo, unb_hi)
         reacs[-1]["reactants"], reacs[-1]["products"] = ["H", "H"], ["H2"]
     if fmt == "krome":
+        # the same fit text (containing exp / pow) on reactions with different windows: every reaction is evaluated inside its own window
+        shared = {}
+        for r in reacs:
+            if rng.random() < 0.5:
+                a = shared.setdefault(rng.randint(0, 1), r["alpha"])
+                r["alpha"] = a
+                r["rate"] = f"{a:.3f}d0*exp(0.0d0*invT)*(T32)**(0.0d0)"
+                r["shared_text"] = True
         for r in reacs:
             def enc(v, upper):
                 # number spelling and operator prefix are chosen independently per bound: primordial.krome mixes `.LE.5.5e3`, `>5.5e3`,
